@@ -738,6 +738,7 @@ func main() {
 	nviol := 0
 	os.MkdirAll(filepath.Join(verifDir, "replays"), 0o755)
 	knownSeen := map[int]bool{}
+	knownHits := map[string]int{}
 	for _, c := range names {
 		ci := classes[c]
 		// known finding?
@@ -756,6 +757,7 @@ func main() {
 			}
 		}
 		if known >= 0 {
+			knownHits[c] += ci.count
 			if !knownSeen[known] {
 				knownSeen[known] = true
 				outLines = append(outLines, fmt.Sprintf("KNOWN-FINDING: property=%s %s (observed %d times this run, e.g. scenario=%s seed=%d)", ci.viol.Property, findings[known].What, ci.count, ci.first.Scenario, ci.first.Seed))
@@ -826,6 +828,7 @@ func main() {
 		"runs_hit_step_cap":   stepsOut,
 		"goroutine_leak_runs": leaks,
 		"violation_classes":   names,
+		"known_finding_hits":  knownHits,
 		"exhaustive":          cfg.Exhaustive && *tier != "" && !time.Now().After(deadline.Add(time.Hour)),
 	}
 	if !cfg.Exhaustive {
